@@ -139,7 +139,9 @@ def run_case(case, acc):
             acc.events += len(items) + 1
         return plain_cache[key]
 
-    compare_da = prog and prog[0][0] == 'do_action' and not has_early(prog)
+    # do_action callbacks are comparable when the single do_action is the first operator (it then sees the raw items, which
+    # encode their group) and nothing downstream disposes a plain observable early
+    compare_da = prog and prog[0][0] == 'do_action' and harness.opnames(prog).count('do_action') == 1 and not has_early(prog)
     if case['fam'] == 'api':
         spec = [['group_by', 'div10', [['tap', 'h']] + prog + [['tap', 't']]]]
         reported = set()
